@@ -102,6 +102,22 @@ func runC12(c *core.Ctx) {
 			layoutFlags = []string{"--date-format", "2006/01/02 -0700"}
 			c.Count("histories_in_a_zoned_layout", 1)
 		}
+		// every ninth history carries a name whose zero-width no-break space (the bytes of a byte order mark),
+		// or a four-byte rune, sits exactly on the 4096-byte boundary of the whole file (or straddles it): what a
+		// reader does at the start of a read chunk then differs between the whole and its parts
+		pad := ""
+		if i%9 == 4 && len(w.Log) >= 2 && !zoned {
+			mark := []string{"\ufeff", "\U0001F375", "\ufeff"}[r.Intn(3)]
+			last := len(w.Log) - 1
+			w.Log[last].Ents = append([]gen.Ent{{Name: "zw" + mark + "food", Val: gen.N("2")}}, w.Log[last].Ents...)
+			text := gen.RenderLog(w.Log, w.Layout, nil)
+			at := strings.Index(text, "zw"+mark) + 2
+			want := 4096 - []int{0, 0, 1, 2}[r.Intn(4)]
+			if k := want - at; k >= 2 {
+				pad = "#" + strings.Repeat("p", k-2) + "\n"
+				c.Count("histories_with_a_rune_on_the_4096_byte_boundary", 1)
+			}
+		}
 		X := w.Basics[r.Intn(len(w.Basics))]
 		P := "a"
 		if m := alnumRun.FindString(w.Recipes[0]); m != "" {
@@ -118,7 +134,7 @@ func runC12(c *core.Ctx) {
 			splits = splits[:3]
 		}
 		for _, s := range splits {
-			files := map[string]string{"food.yaml": w.BookText, "whole.yaml": render(w.Log), "pre.yaml": render(w.Log[:s]), "suf.yaml": render(w.Log[s:])}
+			files := map[string]string{"food.yaml": w.BookText, "whole.yaml": pad + render(w.Log), "pre.yaml": pad + render(w.Log[:s]), "suf.yaml": render(w.Log[s:])}
 			srv.Write(files)
 			if k >= 3 {
 				c.Nontrivial(w.BookText, files["whole.yaml"], fmt.Sprint(s))
